@@ -42,6 +42,7 @@ type completion struct {
 	PromptTok int    `json:"prompt_tokens"`
 	ComplTok  int    `json:"completion_tokens"`
 	Gran      string `json:"granularity"`
+	Hdr       string `json:"tool_header,omitempty"` // "" = id, name and the first arguments in one fragment | id-then-name | name-split
 	Model     string `json:"model"`
 }
 
@@ -120,6 +121,15 @@ func genCompletion(rng *rand.Rand) completion {
 	c.Usage = []string{"none", "in-finish", "separate-empty-choices"}[rng.Intn(3)]
 	c.PromptTok, c.ComplTok = 1+rng.Intn(500), 1+rng.Intn(500)
 	c.Gran = []string{"rune", "small", "single"}[rng.Intn(3)]
+	// how a tool call's first fragments are cut ("tool name/id ... split points"): nearly always as
+	// the mainstream backends send it, sometimes id and name in successive fragments, sometimes the
+	// name itself in two fragments (the OpenAI delta format concatenates strings per index)
+	switch rng.Intn(10) {
+	case 0:
+		c.Hdr = "id-then-name"
+	case 1:
+		c.Hdr = "name-split"
+	}
 	tot := 0
 	for _, s := range c.Segs {
 		tot += len(s.Text) + len(s.Args)
@@ -185,6 +195,16 @@ func renderSSE(rng *rand.Rand, c completion) []byte {
 			first, pieces = pieces[0], pieces[1:]
 		}
 		hdr := map[string]any{"tool_calls": []any{map[string]any{"index": ti, "id": s.ID, "type": "function", "function": map[string]any{"name": s.Name, "arguments": first}}}}
+		var hdr2 map[string]any
+		switch {
+		case c.Hdr == "id-then-name":
+			hdr = map[string]any{"tool_calls": []any{map[string]any{"index": ti, "id": s.ID, "type": "function", "function": map[string]any{"arguments": ""}}}}
+			hdr2 = map[string]any{"tool_calls": []any{map[string]any{"index": ti, "function": map[string]any{"name": s.Name, "arguments": first}}}}
+		case c.Hdr == "name-split" && len(s.Name) > 1:
+			k := 1 + rng.Intn(len(s.Name)-1)
+			hdr = map[string]any{"tool_calls": []any{map[string]any{"index": ti, "id": s.ID, "type": "function", "function": map[string]any{"name": s.Name[:k], "arguments": ""}}}}
+			hdr2 = map[string]any{"tool_calls": []any{map[string]any{"index": ti, "function": map[string]any{"name": s.Name[k:], "arguments": first}}}}
+		}
 		if n := len(body); n > 0 && rng.Intn(4) == 0 {
 			// the last text piece and the start of the tool call in ONE delta (what a backend that
 			// emits a whole turn per chunk does)
@@ -197,6 +217,9 @@ func renderSSE(rng *rand.Rand, c completion) []byte {
 		}
 		if hdr != nil {
 			body = append(body, chunk(hdr, nil))
+		}
+		if hdr2 != nil {
+			body = append(body, chunk(hdr2, nil))
 		}
 		for _, p := range pieces {
 			body = append(body, chunk(map[string]any{"tool_calls": []any{map[string]any{"index": ti, "function": map[string]any{"arguments": p}}}}, nil))
@@ -328,6 +351,9 @@ func judge(run *rep.Run, c completion, out []byte, tr *anthropic.Translator, whe
 		cls = "single-tool"
 	case sh == "empty":
 		cls = "empty"
+	}
+	if c.Hdr != "" && strings.Contains(sh, "T") {
+		cls += "/tool-header=" + c.Hdr
 	}
 	if viol != "" {
 		k := "C13/grammar/" + cls
